@@ -4,6 +4,14 @@ import json
 
 CHECKS = {
 
+ "C13": dict(
+  engine="E1",
+  technique="exhaustive enumeration of type graphs (constructor grammar with cycles, all member permutations, metadata/validation decorations, all 8 hash flag combinations) on the real Dup/DupAtt/Hash/Equal; map-iteration-order seam by go build -overlay rewriting of expr/hasher.go; reference canonical forms and reflective snapshots",
+  text="All type graphs of a constructor grammar (primitives, arrays, maps, objects, unions, user and result types with views, guarded and unguarded cycles over two definitions; every permutation of object attributes and union alternatives up to 4; 10 metadata sets; validations, defaults, examples, bases/references) are built through the expr API. Copy oracle: Equal(Dup(t), t), equal Hash under all 8 flag combinations, and for EVERY reflectively found mutation site of the copy (field sets, pointer write-through, slice/map element edits, the mutating methods) an independently written snapshot of the original must be unchanged. Hash oracle (two-sided, never stricter than the documentation): same strict canonical form => same hash, same hash => loosely equal, decided for all pairs in O(n) through canonical-form maps. Stability: expr/hasher.go is rewritten at check time so that every range over a map takes its key order from a controller; every permutation (<= 4 keys) of every visit must give the same hash. Termination in child processes.",
+  design_ref="DESIGN.md section 3 C13",
+  note="Widths bounded by one-hole contexts; thorough independence phase needs ~170 CPU-minutes and reports a cap through exhaustive:false when the budget is hit.",
+ ),
+
  "C10": dict(
   engine="E2+E5",
   technique="bounded exhaustive enumeration of (gRPC design, value / message sequence) pairs: real goa generators with a stand-in protoc, independent re-parse of the .proto files, generated client and server executed against each other over grpc/bufconn, compared with a reference validator and equality model",
